@@ -372,3 +372,79 @@ func verifLemma_C11_area_relations(r Reference, nss Namespaces) {
 	verifrt.Assert(len(got.Relations) == 1, "relations-length")
 	verifrt.Assert(got.Relations[0] == r, "relation")
 }
+
+// ---- C08: posting lists (bounded shapes) -----------------------------------------------
+// Lists of up to three IDs over up to three (type, namespace) groups with
+// symbolic values below 128 (one-byte varints; the block layout is then
+// concrete), encoded by the real PostingListEncoder and read back by the real
+// Iterator. The namespace table has one namespace (index 1).
+
+func vC08Table() *NamespaceTable {
+	return &NamespaceTable{
+		ToEncoded:   map[b6.Namespace]Namespace{b6.NamespaceInvalid: 0, "diagonal.works/verif": 1},
+		FromEncoded: b6.Namespaces{b6.NamespaceInvalid, "diagonal.works/verif"},
+	}
+}
+
+func vC08ID(t b6.FeatureType, v uint64) b6.FeatureID {
+	return b6.FeatureID{Type: t, Namespace: "diagonal.works/verif", Value: v}
+}
+
+// Encode point/a, path/b, path/c (b < c) and iterate: exactly these, in order.
+func verifLemma_C08_iterate3(a, b, c uint64) {
+	verifrt.Assume(a < 128 && b < 128 && c < 128 && b < c)
+	nt := vC08Table()
+	var pl PostingList
+	e := NewPostingListEncoder(&pl)
+	e.Append(FeatureID{Type: b6.FeatureTypePoint, Namespace: 1, Value: a})
+	e.Append(FeatureID{Type: b6.FeatureTypePath, Namespace: 1, Value: b})
+	e.Append(FeatureID{Type: b6.FeatureTypePath, Namespace: 1, Value: c})
+	verifrt.Assert(len(pl.IDs)%PostingListBlockSize != 0 || len(pl.IDs) > 0, "encoded")
+	it := &Iterator{header: pl.Header, ids: pl.IDs, nt: nt}
+	verifrt.Assert(it.Next(), "first")
+	verifrt.Assert(it.FeatureID() == vC08ID(b6.FeatureTypePoint, a), "first-id")
+	verifrt.Assert(it.Next(), "second")
+	verifrt.Assert(it.FeatureID() == vC08ID(b6.FeatureTypePath, b), "second-id")
+	verifrt.Assert(it.Next(), "third")
+	verifrt.Assert(it.FeatureID() == vC08ID(b6.FeatureTypePath, c), "third-id")
+	verifrt.Assert(!it.Next(), "end")
+}
+
+// Advance to an ID whose (type, namespace) group is absent from the list lands
+// on the first ID of the next group; the following Next must not yield it again.
+func verifLemma_C08_advance_absent_group(a, k, c uint64) {
+	verifrt.Assume(a < 128 && c < 128)
+	nt := vC08Table()
+	var pl PostingList
+	e := NewPostingListEncoder(&pl)
+	e.Append(FeatureID{Type: b6.FeatureTypePoint, Namespace: 1, Value: a})
+	e.Append(FeatureID{Type: b6.FeatureTypeArea, Namespace: 1, Value: c})
+	it := &Iterator{header: pl.Header, ids: pl.IDs, nt: nt}
+	verifrt.Assert(it.Next(), "first")
+	verifrt.Assert(it.Advance(vC08ID(b6.FeatureTypePath, k)), "advance-finds-next-group")
+	verifrt.Assert(it.FeatureID() == vC08ID(b6.FeatureTypeArea, c), "advance-lands-on-first-id-of-next-group")
+	verifrt.Assert(!it.Next(), "no-repeat-after-advance")
+}
+
+// Advance inside a group: to the first ID not less than the target.
+func verifLemma_C08_advance_in_group(a, b, c, k uint64) {
+	verifrt.Assume(a < 128 && b < 128 && c < 128 && a < b && b < c)
+	nt := vC08Table()
+	var pl PostingList
+	e := NewPostingListEncoder(&pl)
+	e.Append(FeatureID{Type: b6.FeatureTypePath, Namespace: 1, Value: a})
+	e.Append(FeatureID{Type: b6.FeatureTypePath, Namespace: 1, Value: b})
+	e.Append(FeatureID{Type: b6.FeatureTypePath, Namespace: 1, Value: c})
+	it := &Iterator{header: pl.Header, ids: pl.IDs, nt: nt}
+	ok := it.Advance(vC08ID(b6.FeatureTypePath, k))
+	verifrt.Assert(ok == (k <= c), "advance-result")
+	if ok {
+		want := c
+		if k <= a {
+			want = a
+		} else if k <= b {
+			want = b
+		}
+		verifrt.Assert(it.FeatureID() == vC08ID(b6.FeatureTypePath, want), "advance-lands-on-first-not-less")
+	}
+}
